@@ -25,6 +25,8 @@ func init() {
 			{Name: "codec option dropped", File: "main.go", Old: "\t\tgrpc.CustomCodec(grpc_proxy.Codec()),\n", New: "", Expect: "C16.W1"},
 			{Name: "pool map read without the lock", File: "proxy/grpc_handler.go", Old: "\tp.lock.RLock()\n\tconn := p.connections[makeGRPCTargetKey(target)]\n\tp.lock.RUnlock()", New: "\tconn := p.connections[makeGRPCTargetKey(target)]", Expect: "C16.P1"},
 			{Name: "pool keyed by host in Set only", File: "proxy/grpc_handler.go", Old: "\tkey := makeGRPCTargetKey(target)\n\tif cur := p.connections[key]", New: "\tkey := target.URL.Host\n\tif cur := p.connections[key]", Expect: "C16.P1"},
+			{Name: "pool keyed by dial address", File: "proxy/grpc_handler.go", Old: "\treturn t.URL.String()\n", New: "\treturn t.URL.Host\n", Expect: "C16.P4"},
+			{Name: "unknown backend status rewritten", File: "proxy/grpc_handler.go", Old: "\ttarget.Timer.Observe(dur.Seconds())\n\n\treturn err", New: "\ttarget.Timer.Observe(dur.Seconds())\n\n\tif status.Code(err) == codes.Unknown {\n\t\treturn status.Error(codes.Internal, \"internal error\")\n\t}\n\treturn err", Expect: "C16.G2"},
 			{Name: "insert without re-check", File: "proxy/grpc_handler.go", Old: "\tif cur := p.connections[key]; cur != nil && cur != conn && cur.GetState() != connectivity.Shutdown {\n\t\tconn.Close()\n\t\treturn cur\n\t}\n", New: "", Expect: "C16.P2"},
 			{Name: "cleanup sleeps while holding the lock", File: "proxy/grpc_handler.go", Old: "\t\tp.lock.Unlock()\n\t\ttime.Sleep(p.cleanupInterval)", New: "\t\ttime.Sleep(p.cleanupInterval)\n\t\tp.lock.Unlock()", Expect: "C16.P3"},
 			{Name: "cleanup without pause", File: "proxy/grpc_handler.go", Old: "\t\tp.lock.Unlock()\n\t\ttime.Sleep(p.cleanupInterval)", New: "\t\tp.lock.Unlock()", Expect: "C16.P3"},
@@ -40,6 +42,7 @@ func runC16(c *Ctx) {
 	runC16W1(c)
 	runC16L1(c)
 	runC16P(c)
+	runC16Extra(c)
 }
 
 // grpcCode: v is status.Error(codes.X, ...) -> X's numeric value.
